@@ -4,6 +4,10 @@
 (*          op    {op, k, v, ttl, d, res}    an operation executed alone      *)
 (*          call  {id, op, k, v, ttl, d} / ret {id, res}   concurrent calls   *)
 (*          stopret {alive}   Stop returned; alive: the cleaner still exists  *)
+(* Set reads the clock (TClock) and then stores (TLin): the expiry is counted  *)
+(* from a moment inside the call, not necessarily from the store.  Get reads   *)
+(* the map (TLin) and then the clock (TGetClock): its hit/miss is judged with  *)
+(* the later clock reading.  Both orders are those of ttlcache.go.             *)
 (* Between call and ret an operation takes effect in one silent step (TLin); *)
 (* Cleanup, Reset and Delete in two or more: TLin collects the keys (scan),  *)
 (* TSweep removes them - and may do so repeatedly until the call returns:    *)
@@ -43,19 +47,39 @@ TOp == /\ HasNext /\ Ev.ev = "op"
        /\ l' = l + 1 /\ UNCHANGED <<tr, maxTTL, ops, cp, cleanerOn>>
 
 TCall == /\ HasNext /\ Ev.ev = "call"
-         /\ ops' = (Ev.id :> [e |-> Ev, st |-> "called", res |-> 0, ks |-> {}]) @@ ops
+         /\ ops' = (Ev.id :> [e |-> Ev, st |-> "called", res |-> 0, ks |-> {}, t |-> -1, seen |-> <<>>]) @@ ops
          /\ l' = l + 1 /\ UNCHANGED <<tr, store, now, maxTTL, cp, cleanerOn>>
 
-TLin(id) == /\ HasNext /\ ops[id].st = "called"
-            /\ IF TwoStep(ops[id].e.op)
-                 THEN /\ ops' = [ops EXCEPT ![id].st = "scanned",
-                                            ![id].ks = CASE ops[id].e.op = "reset" -> DOMAIN store
-                                                         [] ops[id].e.op = "delete" -> {ops[id].e.k}
-                                                         [] OTHER -> Expired(store, now)]
-                      /\ UNCHANGED <<store, now>>
-                 ELSE LET r == Eff(ops[id].e) IN
+(* Set: the clock is read first (ttlcache.go:97), the entry stored afterwards *)
+TClock(id) == /\ HasNext /\ ops[id].st = "called" /\ ops[id].e.op = "set" /\ ops[id].t = -1
+              /\ ops' = [ops EXCEPT ![id].t = now]
+              /\ UNCHANGED <<tr, l, store, now, maxTTL, cp, cleanerOn>>
+(* Get: the clock is read after the map (ttlcache.go:79-80) *)
+TGetClock(id) == /\ HasNext /\ ops[id].st = "read" /\ ops[id].e.op = "get"
+                 /\ ops' = [ops EXCEPT ![id].st = "lin",
+                                        ![id].res = IF ops[id].seen # <<>> /\ ops[id].seen[1].exp > now THEN ops[id].seen[1].val ELSE Miss]
+                 /\ UNCHANGED <<tr, l, store, now, maxTTL, cp, cleanerOn>>
+
+TLinSet(id) == /\ ops[id].e.op = "set" /\ ops[id].t # -1
+               /\ store' = (ops[id].e.k :> [val |-> ops[id].e.v, exp |-> ops[id].t + Cap(ops[id].e.ttl, maxTTL)]) @@ store
+               /\ ops' = [ops EXCEPT ![id].st = "lin"]
+               /\ UNCHANGED now
+TLinGet(id) == /\ ops[id].e.op = "get"
+               /\ ops' = [ops EXCEPT ![id].st = "read",
+                                      ![id].seen = IF ops[id].e.k \in DOMAIN store THEN <<store[ops[id].e.k]>> ELSE <<>>]
+               /\ UNCHANGED <<store, now>>
+TLinScan(id) == /\ TwoStep(ops[id].e.op)
+                /\ ops' = [ops EXCEPT ![id].st = "scanned",
+                                       ![id].ks = CASE ops[id].e.op = "reset" -> DOMAIN store
+                                                    [] ops[id].e.op = "delete" -> {ops[id].e.k}
+                                                    [] OTHER -> Expired(store, now)]
+                /\ UNCHANGED <<store, now>>
+TLinOther(id) == /\ ops[id].e.op \notin {"set", "get"} /\ ~TwoStep(ops[id].e.op)
+                 /\ LET r == Eff(ops[id].e) IN
                       /\ store' = r[1] /\ now' = r[2]
                       /\ ops' = [ops EXCEPT ![id].st = "lin", ![id].res = r[3]]
+TLin(id) == /\ HasNext /\ ops[id].st = "called"
+            /\ (TLinSet(id) \/ TLinGet(id) \/ TLinScan(id) \/ TLinOther(id))
             /\ UNCHANGED <<tr, l, maxTTL, cp, cleanerOn>>
 
 TSweep(id) == /\ HasNext /\ ops[id].st \in {"scanned", "lin"} /\ TwoStep(ops[id].e.op)
@@ -80,7 +104,7 @@ TStopRet == /\ HasNext /\ Ev.ev = "stopret" /\ ~Ev.alive /\ ~cp.a
             /\ cleanerOn' = FALSE
             /\ l' = l + 1 /\ UNCHANGED <<tr, store, now, maxTTL, ops, cp>>
 
-TNext == TOp \/ TCall \/ TRet \/ TStopRet \/ CScan \/ CSweep \/ \E id \in DOMAIN ops : TLin(id) \/ TSweep(id)
+TNext == TOp \/ TCall \/ TRet \/ TStopRet \/ CScan \/ CSweep \/ \E id \in DOMAIN ops : TLin(id) \/ TSweep(id) \/ TClock(id) \/ TGetClock(id)
 TSpec == TInit /\ [][TNext]_vars
 Done == IF l = Trace[tr].end THEN PrintT(<<"DONE", tr>>) ELSE TRUE
 =============================================================================
